@@ -360,7 +360,7 @@ def run(ctx, rep):
         v = op_int(s["rv"]["ops"][bsi])
         rep.check("C02.num", "FrameHeader built in %s has blocking_strategy = false" % strip_generics(b.path), v == 0, b.loc(s["sp"]),
                   "fixed block size stream: coded number is the frame number", "encoder emits a header with blocking_strategy %s while numbering frames" % v)
-    rep.floor("C02.num", "FrameHeader constructions in encode.rs", len(sites), 8)
+    rep.floor("C02.num", "FrameHeader constructions in encode.rs", len(sites), 2)
     b = anchor(F, rep, "C02.num", "encode::encode_frame")
     if b is not None:
         inc = call_blocks(b, r"FrameNumber::try_increment$")
